@@ -10,6 +10,7 @@ import asyncio
 from asyncio import events
 
 import vloop
+import watchdog
 
 
 class FakeWriter:
@@ -42,6 +43,12 @@ class PipeLoop(vloop.VirtualLoop):
         self.device_imports = 0  # device-class imports requested so far
         self.frame_imports = 0
         self.device_imports_ok = 0  # … of which completed without raising
+        self.dog = None  # a watchdog.Watchdog armed around the current step: once it fired the loop does not go on
+
+    def _run_once(self):
+        if self.dog is not None and self.dog.fired:
+            raise watchdog.Stall("step cut short by the watchdog")
+        super()._run_once()
 
     def run_in_executor(self, executor, func, *args):
         is_device = any(isinstance(a, str) and ".devices" in a for a in args)
